@@ -69,6 +69,10 @@ PROPS = {
                 trusted=["the environment of a client-type endpoint is a script of connection-attempt outcomes and channel deaths (Mav/Model/Provider.lean); time is observed in units of the reconnect period (200 ms, set through the hook) with a tolerance of 0.42 period",
                          "kernel TCP/UDP loopback behaviour (refused connections, RST on SO_LINGER 0, deadlines) as observed"],
                 partial=["idle expiry and deadlines: the theorems are about the read-loop and wrapper models; on real runs silent peers must be closed with a timeout cause and busy peers must stay open (server and client scenarios), and the deadlines handed to a recording net.Conn must be call time + timeout"]),
+    "C16": dict(lean=["Mav.Props.C16"], groups=[("C16", sizes(45, 900))],
+                trusted=["reflection (FieldByName / SetUint) as observed; the fields set by reflection are regenerated from the source text (Gen.heartbeatFields, Gen.streamRequestFields) and compared by theorem",
+                         "heartbeat spacing is observed (12.5 periods of 40-80 ms: count within [8,13], mean gap within [0.8,1.3] periods, no gap below 0.1 period), not proved"],
+                partial=["the 30 s rule is exercised for real only in the thorough tier (one 31 s scenario); in the quick tier it rests on the theorem, the regenerated constant Gen.streamRequestPeriodNs and the source pins"]),
     "C17": dict(lean=["Mav.Props.C17"], groups=[("C17", sizes(1, 1))], table_crosscheck=True, preamble=dialects_preamble,
                 trusted=["published CRC_EXTRA values are represented by the spec recipe (serialization guide) and the values pinned in the repository; the C library's tables are not available offline"]),
     "C19": dict(lean=["Mav.Props.C19"], groups=[("C19", sizes(1, 1))], preamble=enums_preamble,
